@@ -54,6 +54,59 @@ Definition expand_lit_type (t : ty) : option constraint :=
 Fixpoint concat_sep (l0 : list (list sn)) : list sn :=
   match l0 with [] => [] | [x] => x | x :: r => List.app x (SnText ", " :: concat_sep r) end.
 
+
+(* ---- LiteralValue.EmptyCompletionData: the value as the harness serialises a cty.Value:
+        (bool t|f) (str "s") (num "digits") (seq TYPE (v...)) (kv TYPE (("k" v)...)), anything else is not rendered ---- *)
+Fixpoint has_newline (s : string) : bool :=
+  match s with EmptyString => false | String c r => Nat.eqb (nat_of_ascii c) 10 || has_newline r end.
+
+Fixpoint trim_suffix_nl (s : string) : string :=
+  match s with
+  | EmptyString => EmptyString
+  | String c EmptyString => if Nat.eqb (nat_of_ascii c) 10 then EmptyString else s
+  | String c r => String c (trim_suffix_nl r)
+  end.
+
+Definition lit_prim_text (v : sexp) (lvl : nat) : option string :=
+  match v with
+  | SList [SAtom a; x] =>
+      if String.eqb a "bool" then
+        match as_bool x with Some true => Some "true" | Some false => Some "false" | None => None end
+      else if String.eqb a "str" then
+        match x with
+        | SStr s0 =>
+            if has_newline s0 && Nat.eqb lvl 0 then Some ("<<<STRING" ++ nl ++ trim_suffix_nl s0 ++ nl ++ "STRING" ++ nl)
+            else Some (go_quote s0)
+        | _ => None
+        end
+      else if String.eqb a "num" then match x with SStr n => Some n | _ => None end
+      else None
+  | _ => None
+  end.
+
+Definition empty_cd (next : Z) : cdata := {| cd_new := ""; cd_snip := []; cd_trigger := false; cd_next := next |}.
+
+Fixpoint concat_comma (l0 : list (list sn)) : list sn :=
+  match l0 with [] => [] | [x] => x | x :: r => List.app x (SnText ", " :: concat_comma r) end.
+
+(* the (name, attribute schema) list Object.EmptyCompletionData walks for an object VALUE: every attribute a
+   LiteralValue of its value, required unless the object type marks it optional *)
+Definition lit_object_attrs (t : sexp) (entries : list sexp) : list (string * attr_schema) :=
+  let opt_of (n : string) : bool :=
+    match ty_of_sexp t with
+    | Some (TObject ats) => match alookup n ats with Some (_, o) => o | None => false end
+    | _ => false
+    end in
+  flat_map (fun e => match e with
+                     | SList [SStr n; v] =>
+                         [(n, AttrSchema {| af_required := negb (opt_of n); af_optional := opt_of n; af_computed := false; af_deprecated := false;
+                                            af_sensitive := false; af_writeonly := false; af_depkey := false |}
+                                         None "" (CLitValue v TNil false) [] 0 nil_sexp nil_sexp)]
+                     | _ => []
+                     end) entries.
+
+Definition is_object_type (t : sexp) : bool := match ty_of_sexp t with Some (TObject _) => true | _ => false end.
+
 (* loops of Tuple and Object, parameterised by the recursive call *)
 Section Loops.
   Variable rec : constraint -> Z -> nat -> option cdata.
@@ -71,6 +124,37 @@ Section Loops.
         | Some d => if cd_empty d then Some (bracket_stop next0 (cd_trigger d))
                     else tuple_go r (cd_next d) (cd_new d :: news) (cd_snip d :: snips)
         end
+    end.
+
+
+  (* list / set / tuple VALUES: [a, b, c]; an element without text makes the whole value empty *)
+  Fixpoint seq_go (l : list sexp) (last : Z) (news : list string) (snips : list (list sn)) : option cdata :=
+    match l with
+    | [] => Some {| cd_new := "[" ++ join ", " (rev news) ++ "]";
+                    cd_snip := List.app (SnText "[" :: concat_comma (rev snips)) [SnText "]"];
+                    cd_trigger := false; cd_next := last |}
+    | v :: r =>
+        match rec (CLitValue v TNil false) last lvl with
+        | None => None
+        | Some d => if cd_empty d then Some (empty_cd last)
+                    else seq_go r (cd_next d) (cd_new d :: news) (cd_snip d :: snips)
+        end
+    end.
+
+  (* map VALUES: one line per entry, keys in byte order *)
+  Fixpoint map_go (l : list sexp) (last : Z) (news : string) (snip : list sn) : option cdata :=
+    match l with
+    | [] => Some {| cd_new := "{" ++ nl ++ news ++ indent lvl ++ "}";
+                    cd_snip := List.app (SnText ("{" ++ nl) :: snip) [SnText (indent lvl ++ "}")];
+                    cd_trigger := false; cd_next := last |}
+    | SList [SStr k; v] :: r =>
+        match rec (CLitValue v TNil false) last (S lvl) with
+        | None => None
+        | Some d => if cd_empty d then Some (empty_cd last)
+                    else map_go r (cd_next d) (news ++ indent (S lvl) ++ go_quote k ++ " = " ++ cd_new d ++ nl)
+                                (List.app snip (SnText (indent (S lvl) ++ go_quote k ++ " = ") :: List.app (cd_snip d) [SnText nl]))
+        end
+    | _ => None
     end.
 
   Variable empty_obj : cdata.
@@ -129,7 +213,24 @@ Section Ecd.
                    | None => Some {| cd_new := ""; cd_snip := []; cd_trigger := false; cd_next := next |}
                    end
             end
-        | CLitValue _ _ _ => None
+        | CLitValue v _ _ =>
+            match lit_prim_text v lvl with
+            | Some txt => Some {| cd_new := txt; cd_snip := [SnText txt]; cd_trigger := false; cd_next := next |}
+            | None =>
+                match v with
+                | SList [SAtom a; t; SList l] =>
+                    if String.eqb a "seq" then seq_go (ecd f) lvl l next [] []
+                    else if String.eqb a "kv" then
+                      if is_object_type t then
+                        let ats := lit_object_attrs t l in
+                        let empty_obj := brace_stop next lvl (match ats with [] => false | _ => true end) in
+                        if negb prefill then Some empty_obj
+                        else object_go (ecd f) lvl empty_obj ats next false "" []
+                      else map_go (ecd f) lvl l next "" []
+                    else None
+                | _ => None
+                end
+            end
         | CList e _ _ => elem_based e
         | CSet e _ _ => elem_based e
         | CTuple es =>
